@@ -41,6 +41,15 @@ Theorem C03_build_total : forall (tree : list pnode) (init : binit) (lit_ok : na
 Proof. exact build_total. Qed.
 Print Assumptions C03_build_total.
 
+(* "in time polynomial in the input length", the part a model can carry: the node loop of build
+   runs at most 16 * |tree| + 16 times (linear); parse's two walks per token are each cut off by
+   their count guard after |nodes| + 1 iterations (quadratic overall; the walks' fuel bound is
+   what C03_parse_total establishes); lex consumes each character once (C13). *)
+Theorem C03_build_steps_linear : forall (tree : list pnode) (init : binit) (lit_ok : nat -> bool) (root : nat) s e,
+  build tree init lit_ok (build_fuel tree) root = Ok (s, e) -> steps s <= 16 * length tree + 16.
+Proof. exact build_steps_linear. Qed.
+Print Assumptions C03_build_steps_linear.
+
 (* The full statement over the models, UNBOUNDED: every input string lexes to Ok/Err
    (C03_lex_total), every token list parses to Ok/Err, and whatever parse returns builds to
    Ok/Err into any data object. *)
